@@ -58,11 +58,13 @@ def jobs(tier, seed):
         for ncl in (0, 1, 2):
             for nm in (1, 2):
                 for sign in ("free", "nonneg"):
-                    for nanpat in ("none", "one", "onemetric"):
+                    for nanpat in ("none", "one", "onemetric", "posinf", "neginf"):
                         if nanpat == "one" and (ncl == 0 or k < 3):
                             continue  # empty combinations only arise with >= 2 grouping columns
                         if nanpat == "onemetric" and (nm < 2 or k < 3):
                             continue  # one metric of a dict is undefined (NaN) for a NON-empty group, the other metric is defined there
+                        if nanpat in ("posinf", "neginf") and (k < 3 or nm > 1 or ncl > 1 or (nanpat == "neginf" and sign == "nonneg")):
+                            continue  # a scalar metric that is +/-inf for one group (e.g. an odds ratio): still a scalar, handled by IEEE rules
                         for sym_cl in range(max(ncl, 1)):
                             for sym_m in range(nm):
                                 if k == 4 and (sym_cl > 0 or sym_m > 0):
@@ -101,6 +103,8 @@ def _build_tables(job, mk):
                     cells[(cl, s, m)] = math.nan  # an empty intersection
                 elif job["nan"] == "onemetric" and si == k - 1 and ci == 0 and mi != job["sym_m"]:
                     cells[(cl, s, m)] = math.nan  # the OTHER metric is undefined for this (non-empty) group
+                elif job["nan"] in ("posinf", "neginf") and si == k - 1 and ci == 0:
+                    cells[(cl, s, m)] = np.float64(math.inf if job["nan"] == "posinf" else -math.inf)
                 else:
                     cells[(cl, s, m)] = mk(f"c_{ci}_{si}_{mi}") if symbolic else np.float64(next(conc))
     if ncl:
